@@ -112,6 +112,6 @@ func (Keeper).GetParams
 func (Keeper).SetParams
     modifies e20_enable, e20_hook
     // Params.Validate only type-checks two bool fields and cannot fail: the early `return err` is dead code
-    unreachable return2
+    unreachable return: return err
     ensures result == nil && e20_enable == params.EnableErc20 && e20_hook == params.EnableEVMHook
 @*/
